@@ -139,6 +139,10 @@ def cases(draw):
                 break
             trace.append(step)
         return {'part': 'hist', 'setup': H.setup_to_json(axioms, specs), 'trace': trace, 'memo_pick': draw(st.integers(0, 2 ** 30))}
+    if draw(st.integers(0, 13)) == 0:
+        n = draw(st.sampled_from([40, 80, 84, 85, 86, 87, 90, 100, 120, 127]))
+        return {'part': 'thunk', 'apps': [], 'wrap': 'none', 'wrap_arg': None, 'memo_pick': draw(st.integers(0, 2 ** 30)),
+                'scale': {'n': n, 'shape': draw(st.sampled_from(['twice', 'chain', 'imp'])), 'picks': sorted(set([0, n - 1] + draw(st.lists(st.integers(0, n - 1), max_size=2))))}}
     _, _, defs = H.pool()
     apps = []
     for _ in range(draw(st.integers(1, 2))):
@@ -218,7 +222,21 @@ def prepare_thunks(c):
     from proof_generation.proofs.substitution import Substitution
     import proof_generation.pattern as P
 
-    module, prop, taut, thunks = S.make_module(c['apps'])
+    if c.get('scale'):
+        # scale: a theory with many axioms, so that memory indices approach the 256 slots a Load can address and the
+        # analysis has to budget its memoisation suggestions
+        from proof_generation.proof import ProofExp
+
+        n, shape = c['scale']['n'], c['scale']['shape']
+        syms = [P.Symbol('c%d' % i) for i in range(n)]
+        if shape == 'twice': axioms = [P.App(x, x) for x in syms]
+        elif shape == 'chain': axioms = [P.App(syms[i], syms[(i + 1) % n]) for i in range(n)]
+        else: axioms = [P.Implies(x, P.App(x, syms[0])) for x in syms]
+        module = ProofExp(axioms=list(axioms), claims=[])
+        thunks = [module.load_axiom(axioms[i % n]) for i in c['scale']['picks']]
+        prop = taut = None
+    else:
+        module, prop, taut, thunks = S.make_module(c['apps'])
     advertised = []
     final = []
     for th in thunks:
@@ -331,8 +349,8 @@ def _body(c, stats: Stats):
                 bij = R.SymbolBijection()
                 if len(res[1].proved) != len(advertised) or not all(bij.unify(a, b) for a, b in zip(advertised, res[1].proved)):
                     raise Violation('[thunk] stack %s: the machine discharged %s, advertised %s' % (kind, [R.show(x) for x in res[1].proved], [R.show(x) for x in advertised]), cj, 'thunk-machine-conc:' + kind)
-        n_rules = sum(a.size() for a in c['apps']) * 3
-        descr = str([a.describe() for a in c['apps']]) + (' wrapped in %s %s' % (c['wrap'], c['wrap_arg']) if c['wrap'] != 'none' else '')
+        n_rules = sum(a.size() for a in c['apps']) * 3 + (3 if c.get('scale') else 0)
+        descr = (('theory of %(n)d axioms (%(shape)s), claims = axioms %(picks)s' % c['scale']) if c.get('scale') else str([a.describe() for a in c['apps']])) + (' wrapped in %s %s' % (c['wrap'], c['wrap_arg']) if c['wrap'] != 'none' else '')
         for kind, out in outcomes.items():
             if out[0] == 'ok' and out[1] != advertised:
                 raise Violation('[thunk] under %s the proof concludes %s but advertises %s before it is run: %s'
@@ -343,7 +361,7 @@ def _body(c, stats: Stats):
     has_empty = c['part'] == 'hist' and any(s[0] == 'instantiate_top' and not s[1] for s in c['trace'])
     stats.case(repr(cj), n_rules >= 3 and len(outcomes) >= 6,
                [c['part'], 'all-ok' if not fails else ('all-fail' if not oks else 'MIXED')] + (['contains-empty-instantiation'] if has_empty else []) + (['memo-alias'] if c.get('alias') else [])
-               + (['wrap-' + c['wrap']] if c['part'] == 'thunk' else []),
+               + (['wrap-' + c['wrap']] if c['part'] == 'thunk' else []) + (['scale-theory'] if c.get('scale') else []),
                {'part': c['part'], 'expression': descr[:600], 'stacks': len(outcomes), 'machine_replays': machine_checked})
     if oks and fails:
         raise Violation('[%s] %s succeeds under %s but fails under %s (%s)' % (c['part'], descr[:800], oks, fails, outcomes[fails[0]][1:]), cj, 'all-or-none:' + fails[0])
